@@ -98,8 +98,11 @@ def rule_not_swallowed(ctx, rep: Report, rid="V4", min_try=3):
                         "a parse or validation error raised inside this try body is caught and not "
                         "re-raised: a rejected input would be treated as accepted", f"{mi.rel}:{h.lineno}")
     rep.units["try_statements_examined"] = n
-    if n < min_try:
-        raise AnalysisError(f"{rep.prop}/{rid}: {n} try statements found, >= {min_try} expected")
+    # the rule quantifies over whatever try statements exist (removing one is not an error); what must not vanish
+    # is the set of functions that was looked at
+    if len(scan) < 100:
+        raise AnalysisError(f"{rep.prop}/{rid}: only {len(scan)} functions scanned for try statements")
+    rep.add(rid, "try statements examined", True, f"{n} in {len(scan)} functions", "", nontrivial=False)
 
 
 def _handler_types(h: ast.ExceptHandler) -> Set[str]:
@@ -1762,6 +1765,7 @@ def rule_locals_defined(ctx, rep: Report, rid="U1", packages=("gtwrap/",), min_f
                     f"{sorted(missing)} read through `self` but stored by no method of the class, its bases or its subclasses "
                     f"(e.g. the initialisation was dropped from __init__): AttributeError on the first input that reaches the read",
                     f"{mi.rel}:{min((x.lineno for x in missing.values()), default=ci.node.lineno)}", nontrivial=bool(missing))
+    rule_no_object_rebound_to_text(ctx, rep, rid, packages=packages, min_functions=0)
 
 
 def rule_namespace_path_lookup(ctx, rep: Report, rid="V6"):
@@ -1843,3 +1847,217 @@ def rule_directory_creation_tolerates_races(ctx, rep: Report, rid="R9", min_site
                     f"{mi.rel}:{c.lineno}")
     if n < min_sites:
         raise AnalysisError(f"{rep.prop}/{rid}: only {n} directory creations found ({min_sites} expected)")
+
+
+_STR_METHODS = set(dir(str))
+
+
+def rule_no_object_rebound_to_text(ctx, rep: Report, rid="U2", packages=("gtwrap/",), min_functions=20):
+    """A name that holds a declaration object (a parameter, a loop variable) is not re-bound to a piece of text
+    (`x = x.to_cpp()`, `x = str(x)`, an f-string) and afterwards used as the object again: an attribute read such as
+    `x.return_type` after the re-binding raises AttributeError for exactly the inputs that take both the re-binding
+    branch and the later use (a templated method that returns a pair, say)."""
+    prog = ctx.prog
+    n = 0
+    for mi in sorted(prog.modules.values(), key=lambda m: m.rel):
+        if not mi.rel.startswith(packages):
+            continue
+        fns = [(name, f) for name, f in mi.functions.items()] + [(f"{q}.{m}", f) for q, c in mi.classes.items() for m, f in c.methods.items()]
+        for name, fn in sorted(fns, key=lambda x: x[0]):
+            n += 1
+            params = set(func_params(fn))
+            for st in walk_no_nested(fn):
+                if not (isinstance(st, ast.Assign) and len(st.targets) == 1 and isinstance(st.targets[0], ast.Name)):
+                    continue
+                v = st.targets[0].id
+                val = st.value
+                texty = isinstance(val, ast.JoinedStr) or (isinstance(val, ast.Constant) and isinstance(val.value, str)) or \
+                    (isinstance(val, ast.Call) and ((isinstance(val.func, ast.Attribute) and val.func.attr in ("to_cpp", "format", "join", "instantiated_name",
+                                                                                                            "qualified_name"))
+                                                    or (isinstance(val.func, ast.Name) and val.func.id in ("str", "repr"))))
+                # only a re-binding of a name that held the object: the value is computed from the name itself
+                if not texty or not any(isinstance(x, ast.Name) and x.id == v for x in ast.walk(val)):
+                    continue
+                if v not in params and not any(isinstance(l, ast.For) and any(isinstance(x, ast.Name) and x.id == v for x in ast.walk(l.target))
+                                               for l in walk_no_nested(fn)):
+                    continue
+                g_def = guards_of(st, fn, include_exits=False)
+                later = []
+                for x in walk_no_nested(fn):
+                    if isinstance(x, ast.Attribute) and isinstance(x.value, ast.Name) and x.value.id == v and isinstance(x.ctx, ast.Load) \
+                            and x.attr not in _STR_METHODS and (x.lineno, x.col_offset) > (st.end_lineno, st.end_col_offset):
+                        g_use = guards_of(x, fn, include_exits=False)
+                        exclusive = any((t, not pol) in g_use for t, pol in g_def)
+                        if not exclusive:
+                            later.append(x)
+                rep.add(rid, f"object stays an object:{name}:#{sum(1 for o in rep.obs if o.rule == rid and o.construct.startswith(f'object stays an object:{name}:')) + 1}",
+                        not later,
+                        f"`{unparse(st)[:60]}` (line {st.lineno}) turns `{v}` into text, and line {later[0].lineno if later else 0} reads "
+                        f"`{unparse(later[0]) if later else ''}` from it on a path that is not excluded by the guards: AttributeError: 'str' object has no "
+                        f"attribute '{later[0].attr if later else ''}'", f"{mi.rel}:{st.lineno}")
+    rep.add(rid, "object stays an object:functions analysed", True, f"{n} functions", "", nontrivial=False)
+    if n < min_functions:
+        raise AnalysisError(f"{rep.prop}/{rid}: only {n} functions analysed")
+
+
+def _exclusive(a: ast.AST, b: ast.AST) -> bool:
+    """The two nodes lie in different arms of a common if / conditional expression."""
+    def arms(x):
+        out = {}
+        cur = x
+        while True:
+            p = parent(cur)
+            if p is None:
+                return out
+            if isinstance(p, ast.If):
+                out[id(p)] = "body" if cur in p.body else ("orelse" if cur in p.orelse else "test")
+            elif isinstance(p, ast.IfExp):
+                out[id(p)] = "body" if cur is p.body else ("orelse" if cur is p.orelse else "test")
+            cur = p
+    aa, bb = arms(a), arms(b)
+    return any(k in bb and {aa[k], bb[k]} == {"body", "orelse"} for k in aa)
+
+
+_FANOUT_POSITIVE = '''
+class N:
+    def text(self):
+        if self.kids and all(k.text() for k in self.kids):
+            return "<" + ",".join(k.text() for k in self.kids) + ">"
+        return self.name
+'''
+_FANOUT_NEGATIVE = '''
+class N:
+    def text(self):
+        if self.ptr:
+            t = self.base.text() + "*"
+        elif self.ref:
+            t = self.base.text() + "&"
+        else:
+            t = self.base.text()
+        return t + ",".join([k.text() for k in self.kids])
+'''
+
+
+def _recursive_fanout(fn: ast.FunctionDef) -> List[List[ast.Call]]:
+    """Groups of two or more calls `<x>.<same method name>()` inside fn that can all execute in one activation and go to
+    the same children (same receiver, or iteration variables over the same collection)."""
+    calls = [c for c in walk_no_nested(fn) if isinstance(c, ast.Call) and isinstance(c.func, ast.Attribute) and c.func.attr == fn.name
+             and not (isinstance(c.func.value, ast.Call) and unparse(c.func.value.func) == "super")]
+
+    def source(c: ast.Call) -> str:
+        r = c.func.value
+        if isinstance(r, ast.Name):
+            # iteration variable of a comprehension / loop: name the collection
+            p = c
+            while p is not None and p is not fn:
+                if isinstance(p, (ast.ListComp, ast.GeneratorExp, ast.SetComp, ast.DictComp)):
+                    for g in p.generators:
+                        if any(isinstance(x, ast.Name) and x.id == r.id for x in ast.walk(g.target)):
+                            return "each of " + unparse(g.iter)
+                if isinstance(p, ast.For) and any(isinstance(x, ast.Name) and x.id == r.id for x in ast.walk(p.target)):
+                    return "each of " + unparse(p.iter)
+                p = parent(p)
+        return unparse(r)
+    groups: Dict[str, List[ast.Call]] = {}
+    for c in calls:
+        groups.setdefault(source(c), []).append(c)
+    out = []
+    for src, cs in groups.items():
+        # largest set of pairwise non-exclusive calls (greedy is enough for the handful of sites involved)
+        keep: List[ast.Call] = []
+        for c in cs:
+            if all(not _exclusive(c, k) for k in keep):
+                keep.append(c)
+        if len(keep) >= 2:
+            out.append(keep)
+    return out
+
+
+def rule_render_once_per_child(ctx, rep: Report, rid="Z6", package="gtwrap/interface_parser"):
+    """Work done on a parsed type while parsing stays linear in its nesting depth: a method that recurses structurally
+    (`to_cpp` calling `to_cpp` of the template arguments, ...) calls itself at most once per child in one activation.
+    Two calls on the same children (`all(x.to_cpp() for x in xs)` followed by `", ".join(x.to_cpp() for x in xs)`)
+    double the work per level - 2^depth - and the rule reports it when such a method is reachable from a parse action
+    (a node constructor / from_parse_result, following calls by name, comparisons to `__eq__` / `__ne__`, and
+    str() / format / f-strings to `__repr__` / `__str__`)."""
+    for label, src, want in (("positive", _FANOUT_POSITIVE, True), ("negative", _FANOUT_NEGATIVE, False)):
+        t = ast.parse(src)
+        for p_ in ast.walk(t):
+            for c_ in ast.iter_child_nodes(p_):
+                c_._parent = p_
+        if bool(_recursive_fanout(t.body[0].body[0])) != want:
+            raise AnalysisError(f"{rep.prop}/{rid}: built-in {label} example is not decided as expected")
+    prog = ctx.prog
+    methods: Dict[str, List[Tuple[str, ast.FunctionDef, ModuleInfo]]] = {}
+    starts = []
+    for mi in prog.modules.values():
+        if not mi.rel.startswith(package):
+            continue
+        for q, ci in mi.classes.items():
+            for mname, fn in ci.methods.items():
+                methods.setdefault(mname, []).append((f"{q}.{mname}", fn, mi))
+                if mname in ("__init__", "from_parse_result") and any(isinstance(st, ast.Assign) and any(unparse(t) == "rule" for t in st.targets)
+                                                                       for st in ci.node.body):
+                    starts.append((f"{q}.{mname}", fn, mi))
+    if len(starts) < 10:
+        raise AnalysisError(f"{rep.prop}/{rid}: only {len(starts)} parse-action entry points found")
+
+    def plain_text(e) -> bool:
+        """Certainly a str / number: rendering it calls no method of the package."""
+        if isinstance(e, (ast.Tuple, ast.List, ast.Set)):
+            return all(isinstance(x, ast.Constant) for x in e.elts)
+        return isinstance(e, ast.Constant) or (isinstance(e, ast.Attribute) and e.attr in ("name", "text")) or \
+            (isinstance(e, ast.Call) and isinstance(e.func, ast.Name) and e.func.id in ("len", "int", "type"))
+
+    def edges(fn) -> Set[str]:
+        out: Set[str] = set()
+        for x in walk_no_nested(fn):
+            if enclosing(x, ast.Raise) is not None:
+                continue          # building the message of an error: parsing stops there
+            if isinstance(x, ast.Call):
+                if isinstance(x.func, ast.Attribute):
+                    out.add(x.func.attr)
+                    if x.func.attr == "format" and not all(plain_text(a) for a in list(x.args) + [k.value for k in x.keywords]):
+                        out |= {"__repr__", "__str__"}
+                elif isinstance(x.func, ast.Name) and x.func.id in ("str", "repr") and not all(plain_text(a) for a in x.args):
+                    out |= {"__repr__", "__str__"}
+            elif isinstance(x, ast.JoinedStr) and not all(plain_text(v.value) for v in x.values if isinstance(v, ast.FormattedValue)):
+                out |= {"__repr__", "__str__"}
+            elif isinstance(x, ast.Compare):
+                sides = [x.left] + list(x.comparators)
+                if any(isinstance(o, (ast.Eq, ast.NotEq, ast.In, ast.NotIn)) for o in x.ops) and not any(plain_text(s_) for s_ in sides):
+                    out |= {"__eq__", "__ne__"}
+        return out
+    seen: Dict[str, Optional[str]] = {}
+    work = []
+    for q, fn, mi in starts:
+        seen[q] = None
+        work.append((q, fn, mi))
+    while work:
+        q, fn, mi = work.pop()
+        for name in edges(fn):
+            for q2, fn2, mi2 in methods.get(name, []):
+                if q2 not in seen:
+                    seen[q2] = q
+                    work.append((q2, fn2, mi2))
+    n = 0
+    for mname, lst in sorted(methods.items()):
+        for q, fn, mi in sorted(lst, key=lambda x: x[0]):
+            recursive = any(isinstance(c, ast.Call) and isinstance(c.func, ast.Attribute) and c.func.attr == fn.name
+                            and not (isinstance(c.func.value, ast.Name) and c.func.value.id == "self") for c in walk_no_nested(fn))
+            if not recursive:
+                continue
+            n += 1
+            groups = _recursive_fanout(fn)
+            reach = q in seen
+            path = []
+            cur = q
+            while cur is not None and len(path) < 8:
+                path.append(cur)
+                cur = seen.get(cur)
+            rep.add(rid, f"recursive method:{q}:at most one call per child", not (groups and reach),
+                    f"{len(groups[0]) if groups else 0} calls of `{fn.name}` on {('`' + unparse(groups[0][0].func.value) + '`') if groups else ''} at lines "
+                    f"{[c.lineno for c in groups[0]] if groups else []} execute in one activation: 2^depth calls for a type nested `depth` levels deep; "
+                    f"reached while parsing through {' <- '.join(path)}", f"{mi.rel}:{fn.lineno}", nontrivial=bool(groups))
+    if n < 4:
+        raise AnalysisError(f"{rep.prop}/{rid}: only {n} structurally recursive methods found in {package}")
